@@ -355,7 +355,19 @@ def r6_canvases(rule, root=None):
         else:
             rule.bad("%s|interact|size" % ty, "%s::interact must store the new image size before drag / zoom convert cursor positions with it" % ty, A.where(fn))
         t = txt(fn["body"])
-        if ("(changed|=self.drag(cs.screen_pos));" in t and "(changed|=self.zoom(scroll,pos_screen));changed}" in t and t.count("self.end_drag();") == 2) or _interact_paths_ok(fn):
+        from .. import guiflow as GF
+
+        try:
+            followed = GF.follow(fn, ty)
+        except GF.Stop:
+            followed = None
+        if followed is not None:
+            wrong = [(w_, p_) for w_, p_ in followed if p_]
+            if not wrong:
+                rule.ok("%s::interact, followed in its three cursor worlds: begin_drag + drag or end_drag, then one zoom; the answer is drag's flag OR zoom's" % ty)
+            else:
+                rule.bad("%s|interact|flags" % ty, "%s::interact must OR the flags of drag and zoom and end the drag on both no-drag paths: with %s, %s" % (ty, wrong[0][0], wrong[0][1]), A.where(fn))
+        elif ("(changed|=self.drag(cs.screen_pos));" in t and "(changed|=self.zoom(scroll,pos_screen));changed}" in t and t.count("self.end_drag();") == 2) or _interact_paths_ok(fn):
             rule.ok("%s::interact ORs the drag and zoom flags and ends the drag when the button is up or the cursor is gone" % ty)
         else:
             rule.bad("%s|interact|flags" % ty, "%s::interact must OR the flags of drag and zoom and end the drag on both no-drag paths" % ty, A.where(fn))
@@ -384,7 +396,9 @@ def r6_canvases(rule, root=None):
                 if a_.get("k") == "Binary" and a_.get("op") != "|=":
                     continue
                 srcs.append((a_.get("op", "="), A.strip(a_["right"])))
-        if fname and len(inits) == 1:
+        if followed is not None and not any(p_ for _w, p_ in followed):
+            rule.ok("%s::interact: the answer is made of drag / zoom results only" % ty, file=GUI, line=fi["ln"])
+        elif fname and len(inits) == 1:
             bad_src = [str(txt(r_)) for op_, r_ in srcs if not (op_ == "|=" and r_.get("k") == "MethodCall" and r_["method"] in ("drag", "zoom") and A.ident(A.strip(r_["recv"])) == "self")]
             if str(txt(inits[0]["init"])) != "false":
                 rule.bad("%s|interact|flag-init" % ty, "%s::interact starts its `changed` flag from `%s`; it must start false and collect only the flags of drag and zoom (a new image size alone leaves the view bit-identical)" % (ty, txt(inits[0]["init"])), A.where(fi, inits[0]))
